@@ -21,7 +21,7 @@ type Item struct {
 var (
 	typeNames = []string{"set", "add", "delv", "delall"}
 	attrNames = []string{"tag", "title"}
-	valNames  = []string{"a", "b", "a b&c|d"}
+	valNames  = []string{"a", "b", "a b&c|d", ""} // "" only ever as the value of a set-attribute (= clear)
 	sigNames  = []string{"A", "B"}
 )
 
@@ -129,6 +129,9 @@ func Enumerate(al Alphabet, k int) []Case {
 				}
 				for v := 0; v < al.Vals; v++ {
 					if al.valMap != nil {
+						if al.valMap[v] == 3 && ty != 0 {
+							continue // the empty value is explored for set-attribute only
+						}
 						shapes = append(shapes, Item{Kind: 'A', Signer: s, Type: ty, Attr: at, Val: al.valMap[v]})
 						continue
 					}
